@@ -481,3 +481,118 @@ package tally
 //@   loop 1 invariant @consumed forall i int :: 0 <= i && i <= rangeindex ==> h.samples[i].counter.prev == old(h.samples[i].counter.curr)
 //@   loop 1 invariant @pending forall i int :: rangeindex < i && i < len(h.buckets) ==> h.samples[i].counter.prev == old(h.samples[i].counter.prev)
 //@   loop 1 invariant @others_untouched forall c *counter :: (forall i int :: 0 <= i && i < len(h.buckets) ==> c != h.samples[i].counter) ==> c.prev == old(c.prev)
+
+// ---------------------------------------------------------------------------
+// C20: bucket constructors
+
+//@ func LinearValueBuckets
+//@   property C20
+//@   allocs
+//@   ensures @error_iff_bad_count (n <= 0) <==> (result1 != nil)
+//@   ensures @nil_on_error n <= 0 ==> len(result0) == 0
+//@   ensures @count n > 0 ==> len(result0) == n
+//@   ensures @elements n > 0 ==> (forall j int :: 0 <= j && j < n ==> same(result0[j], start + f64(j) * width))
+//@   ensures @quiet quiet()
+//@   loop 1 invariant @idx 0 <= rangeindex + 1 && rangeindex + 1 <= n && len(buckets) == n && fresh(buckets) && n > 0
+//@   loop 1 invariant @elements forall j int :: 0 <= j && j <= rangeindex ==> same(buckets[j], start + f64(j) * width)
+
+//@ func MustMakeLinearValueBuckets
+//@   property C20
+//@   allocs
+//@   panics n <= 0
+//@   ensures @count len(result) == n
+//@   ensures @elements forall j int :: 0 <= j && j < n ==> same(result[j], start + f64(j) * width)
+
+//@ func LinearDurationBuckets
+//@   property C20
+//@   allocs
+//@   ensures @error_iff_bad_count (n <= 0) <==> (result1 != nil)
+//@   ensures @nil_on_error n <= 0 ==> len(result0) == 0
+//@   ensures @count n > 0 ==> len(result0) == n
+//@   ensures @elements n > 0 ==> (forall j int :: 0 <= j && j < n ==> result0[j] == wrap64(start + wrap64(j * width)))
+//@   ensures @quiet quiet()
+//@   loop 1 invariant @idx 0 <= rangeindex + 1 && rangeindex + 1 <= n && len(buckets) == n && fresh(buckets) && n > 0
+//@   loop 1 invariant @elements forall j int :: 0 <= j && j <= rangeindex ==> buckets[j] == wrap64(start + wrap64(j * width))
+
+//@ func MustMakeLinearDurationBuckets
+//@   property C20
+//@   allocs
+//@   panics n <= 0
+//@   ensures @count len(result) == n
+//@   ensures @elements forall j int :: 0 <= j && j < n ==> result[j] == wrap64(start + wrap64(j * width))
+
+//@ func ExponentialValueBuckets
+//@   property C20
+//@   allocs
+//@   ensures @error_iff_bad_argument (n <= 0 || start <= 0.0 || factor <= 1.0) <==> (result1 != nil)
+//@   ensures @nil_on_error result1 != nil ==> len(result0) == 0
+//@   ensures @count result1 == nil ==> len(result0) == n
+//@   ensures @first result1 == nil ==> same(result0[0], start)
+//@   ensures @recurrence result1 == nil ==> (forall j int :: 0 <= j && j + 1 < n ==> same(result0[j+1], result0[j] * factor))
+//@   ensures @quiet quiet()
+//@   loop 1 invariant @idx 0 <= rangeindex + 1 && rangeindex + 1 <= n && len(buckets) == n && fresh(buckets) && n > 0
+//@   loop 1 invariant @first rangeindex >= 0 ==> same(buckets[0], start)
+//@   loop 1 invariant @curr same(curr, (rangeindex < 0 ? start : buckets[rangeindex] * factor))
+//@   loop 1 invariant @recurrence forall j int :: 0 <= j && j + 1 <= rangeindex ==> same(buckets[j+1], buckets[j] * factor)
+
+//@ func MustMakeExponentialValueBuckets
+//@   property C20
+//@   allocs
+//@   panics n <= 0 || start <= 0.0 || factor <= 1.0
+//@   ensures @count len(result) == n
+//@   ensures @first same(result[0], start)
+//@   ensures @recurrence forall j int :: 0 <= j && j + 1 < n ==> same(result[j+1], result[j] * factor)
+
+//@ func ExponentialDurationBuckets
+//@   property C20
+//@   allocs
+//@   ensures @error_iff_bad_argument (n <= 0 || start <= 0 || factor <= 1.0) <==> (result1 != nil)
+//@   ensures @nil_on_error result1 != nil ==> len(result0) == 0
+//@   ensures @count result1 == nil ==> len(result0) == n
+//@   ensures @first result1 == nil ==> result0[0] == start
+//@   ensures @recurrence result1 == nil ==> (forall j int :: 0 <= j && j + 1 < n ==> result0[j+1] == f2i(time.Duration, f64(result0[j]) * factor))
+//@   ensures @quiet quiet()
+//@   loop 1 invariant @idx 0 <= rangeindex + 1 && rangeindex + 1 <= n && len(buckets) == n && fresh(buckets) && n > 0
+//@   loop 1 invariant @first rangeindex >= 0 ==> buckets[0] == start
+//@   loop 1 invariant @curr curr == (rangeindex < 0 ? start : f2i(time.Duration, f64(buckets[rangeindex]) * factor))
+//@   loop 1 invariant @recurrence forall j int :: 0 <= j && j + 1 <= rangeindex ==> buckets[j+1] == f2i(time.Duration, f64(buckets[j]) * factor)
+
+//@ func MustMakeExponentialDurationBuckets
+//@   property C20
+//@   allocs
+//@   panics n <= 0 || start <= 0 || factor <= 1.0
+//@   ensures @count len(result) == n
+//@   ensures @first result[0] == start
+//@   ensures @recurrence forall j int :: 0 <= j && j + 1 < n ==> result[j+1] == f2i(time.Duration, f64(result[j]) * factor)
+
+//@ func bucketsEqual
+//@   property C20
+//@   requires x == nil || is(x, DurationBuckets) || is(x, ValueBuckets)
+//@   ensures @duration is(x, DurationBuckets) ==> (result <==> (is(y, DurationBuckets) && len(db(x)) == len(db(y)) && (forall j int :: 0 <= j && j < len(db(x)) ==> db(x)[j] == db(y)[j])))
+//@   ensures @value is(x, ValueBuckets) ==> (result <==> (is(y, ValueBuckets) && len(vb(x)) == len(vb(y)) && (forall j int :: 0 <= j && j < len(vb(x)) ==> vb(x)[j] == vb(y)[j])))
+//@   ensures @quiet quiet()
+//@   loop 1 invariant @idx 0 <= i && i <= len(b1) && len(b1) == len(b2) && same(b1, db(x)) && same(b2, db(y)) && is(x, DurationBuckets) && is(y, DurationBuckets)
+//@   loop 1 invariant @equal_so_far forall j int :: 0 <= j && j < i ==> b1[j] == b2[j]
+//@   loop 2 invariant @idx 0 <= i#2 && i#2 <= len(b1#2) && len(b1#2) == len(b2#2) && same(b1#2, vb(x)) && same(b2#2, vb(y)) && is(x, ValueBuckets) && is(y, ValueBuckets)
+//@   loop 2 invariant @equal_so_far forall j int :: 0 <= j && j < i#2 ==> b1#2[j] == b2#2[j]
+
+// ---------------------------------------------------------------------------
+// C20: bucket cache. The cache key (identity) is NOT injective; a hit is only
+// used when the stored specification equals the requested one.
+
+//@ pred specOK(b Buckets) { b == nil || (is(b, ValueBuckets) && (forall k int :: 0 <= k && k < len(vb(b)) ==> !isNaN(vb(b)[k]) && !isInf(vb(b)[k]))) || is(b, DurationBuckets) }
+//@ pred sameSpec(a Buckets, b Buckets) { (is(a, ValueBuckets) && is(b, ValueBuckets) && len(vb(a)) == len(vb(b)) && (forall k int :: 0 <= k && k < len(vb(a)) ==> vb(a)[k] == vb(b)[k])) || (is(a, DurationBuckets) && is(b, DurationBuckets) && len(db(a)) == len(db(b)) && (forall k int :: 0 <= k && k < len(db(a)) ==> db(a)[k] == db(b)[k])) }
+//@ pred storageWF(s bucketStorage) { specOK(s.buckets) && len(s.hbuckets) >= 1 && (is(s.buckets, ValueBuckets) && len(vb(s.buckets)) >= 1 ==> len(s.hbuckets) == len(vb(s.buckets)) + 1 && vup(s.hbuckets, len(s.hbuckets)-1) == math.MaxFloat64 && (forall i, j int :: 0 <= i && i <= j && j < len(s.hbuckets) ==> vup(s.hbuckets, i) <= vup(s.hbuckets, j)) && (forall j int :: 0 <= j && j < len(vb(s.buckets)) ==> (exists k int :: 0 <= k && k < len(vb(s.buckets)) && vup(s.hbuckets, j) == vb(s.buckets)[k])) && (forall k int :: 0 <= k && k < len(vb(s.buckets)) ==> (exists j int :: 0 <= j && j < len(vb(s.buckets)) && vup(s.hbuckets, j) == vb(s.buckets)[k]))) && (is(s.buckets, DurationBuckets) && len(db(s.buckets)) >= 1 ==> len(s.hbuckets) == len(db(s.buckets)) + 1 && dup(s.hbuckets, len(s.hbuckets)-1) == math.MaxInt64 && (forall i, j int :: 0 <= i && i <= j && j < len(s.hbuckets) ==> dup(s.hbuckets, i) <= dup(s.hbuckets, j)) && (forall j int :: 0 <= j && j < len(db(s.buckets)) ==> (exists k int :: 0 <= k && k < len(db(s.buckets)) && dup(s.hbuckets, j) == db(s.buckets)[k])) && (forall k int :: 0 <= k && k < len(db(s.buckets)) ==> (exists j int :: 0 <= j && j < len(db(s.buckets)) && dup(s.hbuckets, j) == db(s.buckets)[k]))) }
+
+//@ lock bucketCache.mtx self c protects cache
+//@   property C20, C09
+//@   inv @stored_storages_are_derived_from_their_own_spec c.cache != nil && (forall id uint64 :: id in c.cache ==> storageWF(c.cache[id]))
+
+//@ func (*bucketCache).Get
+//@   property C20, C09
+//@   allocs
+//@   requires c != nil && buckets != nil && specOK(buckets)
+//@   modifies c.cache
+//@   ensures @uses_exactly_the_requested_bounds sameSpec(result.buckets, buckets)
+//@   ensures @storage_derived_from_its_spec storageWF(result)
+//@   ensures @quiet quiet()
